@@ -125,6 +125,7 @@ type NetCfg struct {
 	ParallelLinks bool // a recurrent and a non-recurrent link on the same ordered pair (cyclic variant)
 	LongChains    bool // one net in fifteen is a long sparse chain (20-70 neurons, at most six shortcut links)
 	Rename        bool // one net in five gets its node ids permuted (sensors no longer first in the node list)
+	BigRecurrent  bool // one cyclic net in thirty is large and sparse (100-300 hidden neurons, many self loops)
 }
 
 func genNet(cfg NetCfg) *rapid.Generator[NetSpec] {
@@ -209,7 +210,53 @@ func drawNet(t *rapid.T, cfg NetCfg) NetSpec {
 	return s
 }
 
+// drawBigRecurrent: a large sparse recurrent network: every hidden neuron is fed by a sensor and feeds an output, about
+// half of them carry a self loop (state that survives a step), a few feed their successor. The number of simple paths
+// stays small, so the library's depth search stays cheap.
+func drawBigRecurrent(t *rapid.T) NetSpec {
+	s := NetSpec{ViaGenome: rapid.Bool().Draw(t, "via genome")}
+	nIn := rapid.IntRange(1, 3).Draw(t, "inputs")
+	nBias := rapid.IntRange(0, 1).Draw(t, "bias")
+	nOut := rapid.IntRange(1, 2).Draw(t, "outputs")
+	nHid := rapid.IntRange(100, 300).Draw(t, "hidden (big)")
+	id := 1
+	for i := 0; i < nBias; i++ {
+		s.Nodes = append(s.Nodes, NetNode{Id: id, Role: roleBias, Act: 17})
+		id++
+	}
+	for i := 0; i < nIn; i++ {
+		s.Nodes = append(s.Nodes, NetNode{Id: id, Role: roleInput, Act: 17})
+		id++
+	}
+	nSensors := len(s.Nodes)
+	for i := 0; i < nOut; i++ {
+		s.Nodes = append(s.Nodes, NetNode{Id: id, Role: roleOutput, Act: 4})
+		id++
+	}
+	firstHidden := id
+	for i := 0; i < nHid; i++ {
+		s.Nodes = append(s.Nodes, NetNode{Id: id, Role: roleHidden, Act: rapid.SampledFrom([]int{1, 2, 4, 7}).Draw(t, "act")})
+		id++
+	}
+	selfP := rapid.Float64Range(0.2, 0.9).Draw(t, "self loop prob")
+	for i := 0; i < nHid; i++ {
+		h := firstHidden + i
+		s.Links = append(s.Links, NetLink{From: 1 + rapid.IntRange(0, nSensors-1).Draw(t, "sensor"), To: h, W: rapid.Float64Range(-2, 2).Draw(t, "w")})
+		s.Links = append(s.Links, NetLink{From: h, To: nSensors + 1 + rapid.IntRange(0, nOut-1).Draw(t, "output"), W: rapid.Float64Range(-1, 1).Draw(t, "w")})
+		if rapid.Float64Range(0, 1).Draw(t, "self") < selfP {
+			s.Links = append(s.Links, NetLink{From: h, To: h, W: rapid.Float64Range(-1.5, 1.5).Draw(t, "w"), Rec: rapid.Bool().Draw(t, "rec")})
+		}
+		if i+1 < nHid && rapid.IntRange(0, 9).Draw(t, "to successor") == 0 {
+			s.Links = append(s.Links, NetLink{From: h, To: h + 1, W: rapid.Float64Range(-1, 1).Draw(t, "w")})
+		}
+	}
+	return s
+}
+
 func drawNetPlain(t *rapid.T, cfg NetCfg) NetSpec {
+	if cfg.BigRecurrent && cfg.Cyclic && rapid.IntRange(0, 29).Draw(t, "big recurrent") == 7 {
+		return drawBigRecurrent(t)
+	}
 	if cfg.LongChains && !cfg.Cyclic && rapid.IntRange(0, 29).Draw(t, "long chain") == 13 {
 		return drawChain(t)
 	}
